@@ -128,11 +128,13 @@ def run_case(seed, i, tier):
         recs = dump(name)
         data = fixtures.load(name)
     cont = rng.choice(("plain", "plain", "gz", "bz2", "xz", "lz4", "tar"))
+    rts = [t // 1_000_000_000 for (_, _, t) in recs] or [1_600_000_000]
+    mt_file, mt_in = world.mtime_around(rng, min(rts), max(rts)), world.mtime_around(rng, min(rts), max(rts))
     if cont == "tar":
-        stored = world.to_tar([(world.member_path(rng, "e.evtx"), data, 1600000000)], rng.choice(("ustar", "gnu", "pax")))
+        stored = world.to_tar([(world.member_path(rng, "e.evtx"), data, mt_in)], rng.choice(("ustar", "gnu", "pax")))
         path = "ev.tar"
     else:
-        stored, _ = world.random_container(rng, cont, data, 1600000000, "e.evtx") if cont != "plain" else (data, None)
+        stored, _ = world.random_container(rng, cont, data, mt_in, "e.evtx") if cont != "plain" else (data, None)
         path = "e.evtx" + world.SUFFIX[cont]
     opts = ["--color", "never", "--tz-offset", "+00:00", "--separator", MARK]
     a = b = None
@@ -151,7 +153,7 @@ def run_case(seed, i, tier):
         if b is not None:
             opts += ["-b", c03.fmt_bound(rng, b)]
     want = expected_ids(recs, a, b)
-    files = [core.FileSpec(path, stored, 1600000000)]
+    files = [core.FileSpec(path, stored, mt_file)]
     argv = opts + [path]
     text_src = None
     if rng.random() < 0.3:
